@@ -65,6 +65,8 @@ func main() {
 			usage()
 		}
 		os.Exit(replay(os.Args[2]))
+	case "manifest":
+		os.Exit(writeManifest())
 	case "list":
 		for _, p := range props {
 			fmt.Println(p.ID, p.Pkg)
@@ -579,4 +581,100 @@ func (ev *evidence) write(path string) error {
 		return err
 	}
 	return os.WriteFile(path, append(b, '\n'), 0o644)
+}
+
+// manifest -------------------------------------------------------------------
+
+func writeManifest() int {
+	type level struct {
+		Category  string `json:"category"`
+		Text      string `json:"text"`
+		DesignRef string `json:"design_ref,omitempty"`
+	}
+	type check struct {
+		PropertyID string `json:"property_id"`
+		Quick      string `json:"quick_cmd"`
+		Thorough   string `json:"thorough_cmd"`
+		Evidence   string `json:"evidence_file"`
+		Replay     string `json:"replay_cmd_template"`
+		Engine     string `json:"engine"`
+		Level      level  `json:"level_claimed"`
+		Note       string `json:"level_note"`
+		Technique  string `json:"technique"`
+	}
+	type na struct {
+		PropertyID string `json:"property_id"`
+		Reason     string `json:"reason"`
+	}
+	var checks []check
+	claimed := map[string]bool{}
+	sorted := append([]propCfg{}, props...)
+	sort.Slice(sorted, func(i, j int) bool { return sorted[i].ID < sorted[j].ID })
+	for _, p := range sorted {
+		claimed[p.ID] = true
+		checks = append(checks, check{
+			PropertyID: p.ID,
+			Quick:      "./check.sh " + p.ID + " quick",
+			Thorough:   "./check.sh " + p.ID + " thorough",
+			Evidence:   "/verif/evidence/" + p.ID + ".json",
+			Replay:     "./check.sh replay {path}",
+			Engine:     "vcheck",
+			Level:      level{Category: "exploration", Text: p.LevelText, DesignRef: p.DesignRef},
+			Note:       p.LevelNote,
+			Technique:  p.Technique,
+		})
+	}
+	var nas []na
+	f, err := os.Open(filepath.Join(verifDir, "properties.jsonl"))
+	if err == nil {
+		sc := bufio.NewScanner(f)
+		sc.Buffer(make([]byte, 1<<20), 16<<20)
+		for sc.Scan() {
+			var p struct {
+				ID string `json:"id"`
+			}
+			if json.Unmarshal(sc.Bytes(), &p) == nil && p.ID != "" && !claimed[p.ID] {
+				nas = append(nas, na{p.ID, notBuiltReason(p.ID)})
+			}
+		}
+		f.Close()
+	}
+	if nas == nil {
+		nas = []na{}
+	}
+	m := map[string]any{
+		"version":   1,
+		"setup_cmd": "./setup.sh",
+		"hooks": map[string]any{
+			"guard":            "verif",
+			"enable":           "no source hooks exist: the checks build /repo as it is (the only instrumentation, a permuting pkg/dict for C05, is injected at build time with go build -overlay from a file derived from the current dict.go)",
+			"baseline_off_cmd": "./baseline.sh",
+			"source_commits":   []string{},
+			"add_only":         true,
+		},
+		"engines": []map[string]any{{
+			"name": "vcheck", "path": "/verif/harness/cmd/vcheck",
+			"serves_properties": func() []string {
+				var ids []string
+				for _, p := range sorted {
+					ids = append(ids, p.ID)
+				}
+				return ids
+			}(),
+			"kind_free_text": "Go orchestrator around pgregory.net/rapid v1.3.0 property tests (plus exhaustive enumerations of the finite sub-domains the properties name): snapshots /repo's working tree, rebuilds fc/tinyfo/build_sample_md from it, shards by seed over 16 processes, merges per-case logs into the evidence file, saves shrunk failing cases as replayable JSON",
+		}},
+		"checks":         checks,
+		"not_applicable": nas,
+		"notes":          "All checks: exit 0 = held (possibly with KNOWN-FINDING lines), 1 = VIOLATION line(s), 2 = inconclusive infrastructure problem (never a violation). VERIF_SEED selects the rapid seeds. See DESIGN.md.",
+	}
+	b, _ := json.MarshalIndent(m, "", " ")
+	if err := os.WriteFile(filepath.Join(verifDir, "MANIFEST.json"), append(b, '\n'), 0o644); err != nil {
+		fmt.Fprintln(os.Stderr, err)
+		return 2
+	}
+	return 0
+}
+
+func notBuiltReason(id string) string {
+	return "check not built yet (construction order in DESIGN.md section 8); the technique applies and the property will be claimed once its check is green on the unchanged tree"
 }
